@@ -247,7 +247,7 @@ func VP_C14_steps() {
 	for s := 0; s < steps; s++ {
 		ti := vp.Choice(4)
 		x, z := vpCoords[ti][0], vpCoords[ti][1]
-		n := []int{1, 4093}[vp.Choice(2)]
+		n := []int{1, 4092, 4093}[vp.Choice(3)] // one sector, exactly one sector, two sectors
 		data := make([]byte, n)
 		data[0] = vp.Byte()
 		data[n-1] = data[0] ^ byte(0x40+s)
@@ -299,5 +299,59 @@ func VP_C14_held_reads() {
 	vp.Assert(err == nil && len(d3) == len(data) && d3[0] == 0x5a, "third read")
 	vp.Assert(d1[0] == chunks[0].first && d1[len(d1)-1] == chunks[0].end, "bytes read earlier are unchanged by later reads and writes")
 	vp.Assert(d2[0] == chunks[1].first && d2[len(d2)-1] == chunks[1].end, "bytes read earlier are unchanged by later reads and writes")
+	vp.Cover("end")
+}
+
+// bursts: two or three WriteSector calls back to back with nothing in between
+// (no read, no pad: anything those would reset stays as the writes left it), on
+// a fresh region and on a loaded one; everything is checked at the end only.
+func VP_C14_burst() {
+	var mem *vpMemFile
+	var r *Region
+	var err error
+	model := map[[2]int]vpChunk{}
+	if vp.Choice(2) == 0 {
+		mem = &vpMemFile{}
+		r, err = CreateWriter(mem)
+		vp.Assert(err == nil, "CreateWriter")
+	} else {
+		a := vpChunk{x: vpCoords[0][0], z: vpCoords[0][1], sec: int32(2 + vp.Choice(2)), cnt: 1, length: 4092, first: vp.Byte(), end: vp.Byte()}
+		mem = &vpMemFile{b: vpBuild([]vpChunk{a}, 5)}
+		r, err = Load(mem)
+		vp.Assert(err == nil, "Load of a valid image succeeds")
+		model[[2]int{a.x, a.z}] = a
+	}
+	steps := 2 + vp.Tier()*vp.Choice(2)
+	for s := 0; s < steps; s++ {
+		ti := vp.Choice(3)
+		x, z := vpCoords[ti][0], vpCoords[ti][1]
+		n := []int{1, 4092, 4093, 8188}[vp.Choice(4)]
+		data := make([]byte, n)
+		data[0] = vp.Byte()
+		data[n-1] = data[0] ^ byte(0x40+s)
+		if n == 1 {
+			data[n-1] = data[0]
+		}
+		vp.FreezeClock(true)
+		err = r.WriteSector(x, z, data)
+		vp.FreezeClock(false)
+		vp.Assert(err == nil, "WriteSector err==nil")
+		model[[2]int{x, z}] = vpChunk{x: x, z: z, length: n, first: data[0], end: data[n-1]}
+	}
+	vpValidAnvil(mem.b)
+	vpCheckOccupancy(r, 16)
+	for _, co := range vpCoords[:3] {
+		if c, ok := model[[2]int{co[0], co[1]}]; ok {
+			vpExpectChunk(r, c, "chunk after a burst of writes")
+		} else {
+			vp.Assert(!r.ExistSector(co[0], co[1]), "absent chunk reports absence")
+		}
+	}
+	r2, err := Load(&vpMemFile{b: append([]byte{}, mem.b...)})
+	vp.Assert(err == nil, "reload succeeds")
+	for _, co := range vpCoords[:3] {
+		vp.Assert(r2.offsets[co[1]][co[0]] == r.offsets[co[1]][co[0]], "reloaded offsets == in-memory offsets")
+		vp.Assert(r2.Timestamps[co[1]][co[0]] == r.Timestamps[co[1]][co[0]], "reloaded timestamps == in-memory timestamps")
+	}
 	vp.Cover("end")
 }
